@@ -508,7 +508,7 @@ class Context:
 
         def create_fn(*args):
             """Object.create(proto, properties)."""
-            proto = args[0] if args else NULL
+            proto = args[0] if args else UNDEFINED
             properties = args[1] if len(args) > 1 else UNDEFINED
 
             obj = JSObject()
